@@ -2,7 +2,7 @@ use anyhow::{anyhow, Context, Result};
 use serde::{Deserialize, Serialize};
 use std::collections::HashMap;
 use std::fs::{self, File, OpenOptions};
-use std::io::{BufReader, BufWriter};
+use std::io::{BufReader, BufWriter, Write};
 use std::path::{Path, PathBuf};
 use ts_rs::TS;
 
@@ -91,8 +91,12 @@ impl History {
             .open(&self.path)
             .with_context(|| format!("Failed to create history file: {}", self.path.display()))?;
 
-        let writer = BufWriter::new(file);
-        serde_json::to_writer_pretty(writer, &self.entries)
+        let mut writer = BufWriter::new(file);
+        serde_json::to_writer_pretty(&mut writer, &self.entries)
+            .with_context(|| format!("Failed to write history file: {}", self.path.display()))?;
+        // A BufWriter dropped without flushing swallows the write error
+        writer
+            .flush()
             .with_context(|| format!("Failed to write history file: {}", self.path.display()))?;
 
         Ok(())
